@@ -290,7 +290,13 @@ func (c *FailoverController) ForceFailover(reason string) error {
 	c.logger.Warn("Forcing failover",
 		zap.String("reason", reason),
 	)
-	return c.initiateFailover(reason)
+	if err := c.initiateFailover(reason); err != nil {
+		return err
+	}
+
+	// initiateFailover only marks the failover as in progress; carry it out
+	go c.executeFailover(reason)
+	return nil
 }
 
 // ForceFailback forces an immediate failback (for manual intervention).
@@ -407,6 +413,9 @@ func (c *FailoverController) initiateFailover(reason string) error {
 
 	if c.currentRole == RoleActive {
 		return fmt.Errorf("already active, cannot failover")
+	}
+	if c.state == FailoverStateInProgress {
+		return fmt.Errorf("failover already in progress")
 	}
 
 	c.state = FailoverStateInProgress
